@@ -37,11 +37,39 @@ pub struct TickOut {
     pub sinks: Vec<Vec<It>>,
     /// per inspect id: items seen
     pub inspects: Vec<Vec<It>>,
+    /// per reference log: `(access group, item, value seen)` in execution order
+    pub refs: Vec<Vec<RefSeen>>,
+    /// largest stream seen in this tick (runs with huge intermediate results are discarded)
+    pub max_len: usize,
     /// a non-lazy deferred buffer is non-empty at the end of the tick
     pub nonlazy_pending: bool,
     /// only lazy deferred data is pending
     pub lazy_pending: bool,
 }
+
+pub type RefSeen = (u32, It, Vec<It>);
+
+/// Evaluation unit of a scope: a node, or a whole child loop block.
+#[derive(Clone, Copy, Debug, PartialEq, Eq)]
+enum Item {
+    Node(usize),
+    Loop(usize),
+}
+
+/// Per-tick scratch.
+#[derive(Default)]
+struct Tk {
+    outs: Vec<Vec<Vec<It>>>,
+    sinks: Vec<Vec<It>>,
+    inspects: Vec<Vec<It>>,
+    refs: Vec<Vec<RefSeen>>,
+    arrivals: Vec<Vec<It>>,
+    max_len: usize,
+}
+
+pub const LOOP_ITER_CAP: usize = 40;
+/// A stream longer than this aborts the evaluation of the tick (the run is discarded).
+pub const BLOWUP: usize = 400;
 
 pub struct Interp<'p> {
     prog: &'p Program,
@@ -52,6 +80,18 @@ pub struct Interp<'p> {
     pub tick: u64,
     /// reach probes: names of interesting branches taken
     pub probes: BTreeSet<&'static str>,
+    degs: Vec<usize>,
+    /// loop programs: evaluation order per scope (index 0 = top level, 1 + l = loop l)
+    scope_order: Vec<Vec<Item>>,
+    /// per AllIterations node: items collected over the iterations of the loop it drains
+    allit_acc: Vec<Vec<It>>,
+    /// per Batch node: already released in this execution of its loop
+    batch_drained: Vec<bool>,
+    /// reference log id per referenced handoff node
+    ref_ids: BTreeMap<usize, usize>,
+    tk: Tk,
+    /// a nested loop hit LOOP_ITER_CAP (the run is discarded)
+    pub loop_cap_hit: bool,
 }
 
 fn dedup_keep_order(v: &mut Vec<It>, x: It) {
@@ -67,7 +107,97 @@ impl<'p> Interp<'p> {
         for (i, n) in prog.nodes.iter().enumerate() {
             st[i] = Self::init_state(&n.op);
         }
-        Interp { prog, order, st, defer: vec![vec![]; prog.nodes.len()], tick: 0, probes: BTreeSet::new() }
+        let n = prog.nodes.len();
+        let ref_ids = prog.ref_ids();
+        let scope_order = if prog.has_loops() { Self::scope_orders(prog) } else { vec![] };
+        Interp {
+            prog,
+            order,
+            st,
+            defer: vec![vec![]; n],
+            tick: 0,
+            probes: BTreeSet::new(),
+            degs: prog.out_degree(),
+            scope_order,
+            allit_acc: vec![vec![]; n],
+            batch_drained: vec![false; n],
+            ref_ids,
+            tk: Tk::default(),
+            loop_cap_hit: false,
+        }
+    }
+
+    /// Is loop `l` equal to or nested inside `anc`?
+    fn within(prog: &Program, mut l: Option<usize>, anc: usize) -> bool {
+        while let Some(x) = l {
+            if x == anc {
+                return true;
+            }
+            l = prog.loops[x];
+        }
+        false
+    }
+    /// Representative of `node` in scope `scope`: itself if declared directly in it, the direct
+    /// child loop containing it if it is nested deeper, `None` if it is outside the scope.
+    fn rep(prog: &Program, node: usize, scope: Option<usize>) -> Option<Item> {
+        let nl = prog.loop_of(node);
+        if nl == scope {
+            return Some(Item::Node(node));
+        }
+        let mut l = nl;
+        while let Some(x) = l {
+            if prog.loops[x] == scope {
+                return Some(Item::Loop(x));
+            }
+            l = prog.loops[x];
+        }
+        None
+    }
+    fn scope_orders(prog: &Program) -> Vec<Vec<Item>> {
+        let mut out = vec![];
+        for sc in std::iter::once(None).chain((0..prog.loops.len()).map(Some)) {
+            let mut items: Vec<Item> = vec![];
+            for i in 0..prog.nodes.len() {
+                if prog.loop_of(i) == sc {
+                    items.push(Item::Node(i));
+                }
+            }
+            for (l, par) in prog.loops.iter().enumerate() {
+                if *par == sc {
+                    items.push(Item::Loop(l));
+                }
+            }
+            let idx = |it: &Item| items.iter().position(|x| x == it).unwrap();
+            let mut indeg = vec![0usize; items.len()];
+            let mut succ: Vec<Vec<usize>> = vec![vec![]; items.len()];
+            for (b, nd) in prog.nodes.iter().enumerate() {
+                if nd.op.is_delay() {
+                    continue;
+                }
+                for s in &nd.ins {
+                    let (Some(ra), Some(rb)) = (Self::rep(prog, s.node, sc), Self::rep(prog, b, sc)) else { continue };
+                    if ra != rb {
+                        indeg[idx(&rb)] += 1;
+                        succ[idx(&ra)].push(idx(&rb));
+                    }
+                }
+            }
+            let mut ready: Vec<usize> = (0..items.len()).filter(|i| indeg[*i] == 0).collect();
+            ready.reverse();
+            let mut ord = vec![];
+            while let Some(i) = ready.pop() {
+                ord.push(items[i]);
+                for &j in &succ[i] {
+                    indeg[j] -= 1;
+                    if indeg[j] == 0 {
+                        ready.push(j);
+                    }
+                }
+            }
+            assert_eq!(ord.len(), items.len(), "cycle between loop blocks");
+            out.push(ord);
+        }
+        out
     }
 
     fn init_state(op: &Op) -> St {
@@ -93,45 +223,32 @@ impl<'p> Interp<'p> {
     pub fn run_tick(&mut self, arrivals: &[Vec<It>]) -> TickOut {
         let prog = self.prog;
         let n = prog.nodes.len();
-        let mut outs: Vec<Vec<Vec<It>>> = vec![vec![]; n];
-        let mut sinks = vec![vec![]; prog.n_sinks()];
-        let mut inspects = vec![vec![]; prog.n_inspect];
-        let mut new_defer: Vec<Option<Vec<It>>> = vec![None; n];
-        let degs = prog.out_degree();
-        for &i in &self.order.clone() {
-            let node: &Node = &prog.nodes[i];
-            // delay nodes: output what was buffered in the previous tick; their input of this
-            // tick is collected after all nodes ran
-            if node.op.is_delay() {
-                let v = std::mem::take(&mut self.defer[i]);
-                if !v.is_empty() {
-                    self.probes.insert(if matches!(node.op, Op::DeferTick) { "defer_delivered" } else { "lazy_defer_delivered" });
-                }
-                outs[i] = vec![v];
-                continue;
+        self.tk = Tk {
+            outs: vec![vec![]; n],
+            sinks: vec![vec![]; prog.n_sinks()],
+            inspects: vec![vec![]; prog.n_inspect],
+            refs: vec![vec![]; self.ref_ids.len()],
+            arrivals: arrivals.to_vec(),
+            max_len: 0,
+        };
+        if prog.has_loops() {
+            self.run_scope(None);
+        } else {
+            for &i in &self.order.clone() {
+                self.eval_node(i);
             }
-            let ins: Vec<Vec<It>> = node.ins.iter().map(|s| outs[s.node][s.port].clone()).collect();
-            let o = self.eval(i, &node.op, ins, arrivals, degs[i], &mut sinks, &mut inspects);
-            outs[i] = o;
+            self.collect_defers(None);
         }
-        // collect the inputs of delay nodes
-        for (i, node) in prog.nodes.iter().enumerate() {
-            if node.op.is_delay() {
-                let s = node.ins[0];
-                new_defer[i] = Some(outs[s.node][s.port].clone());
-            }
-        }
+        // another tick is due iff a non-lazy deferred buffer (top level or root-level loop) holds data
         let mut nonlazy_pending = false;
         let mut lazy_pending = false;
-        for (i, d) in new_defer.into_iter().enumerate() {
-            if let Some(d) = d {
-                if !d.is_empty() {
-                    match prog.nodes[i].op {
-                        Op::DeferTick => nonlazy_pending = true,
-                        _ => lazy_pending = true,
-                    }
+        for (i, node) in prog.nodes.iter().enumerate() {
+            let tick_level = prog.loop_of(i).is_none_or(|l| prog.loops[l].is_none());
+            if node.op.is_delay() && tick_level && !self.defer[i].is_empty() {
+                match node.op {
+                    Op::DeferTick => nonlazy_pending = true,
+                    _ => lazy_pending = true,
                 }
-                self.defer[i] = d;
             }
         }
         // end of tick: 'tick state is cleared
@@ -140,7 +257,127 @@ impl<'p> Interp<'p> {
         }
         let t = self.tick;
         self.tick += 1;
-        TickOut { tick: t, sinks, inspects, nonlazy_pending, lazy_pending: lazy_pending && !nonlazy_pending }
+        let tk = std::mem::take(&mut self.tk);
+        TickOut { tick: t, sinks: tk.sinks, inspects: tk.inspects, refs: tk.refs, max_len: tk.max_len, nonlazy_pending, lazy_pending: lazy_pending && !nonlazy_pending }
+    }
+
+    /// Evaluate node `i` from the current outputs of its inputs.
+    fn eval_node(&mut self, i: usize) {
+        let node: &Node = &self.prog.nodes[i];
+        // delay nodes: output what was buffered before; their input is collected at the end of the
+        // tick / iteration (`collect_defers`)
+        if node.op.is_delay() {
+            let v = std::mem::take(&mut self.defer[i]);
+            if !v.is_empty() {
+                self.probes.insert(if matches!(node.op, Op::DeferTick) { "defer_delivered" } else { "lazy_defer_delivered" });
+            }
+            self.tk.outs[i] = vec![v];
+            return;
+        }
+        if self.tk.max_len > BLOWUP {
+            // intermediate results exploded: the run will be discarded, stop computing
+            self.tk.outs[i] = vec![vec![]; self.degs[i].max(1)];
+            return;
+        }
+        let ins: Vec<Vec<It>> = node.ins.iter().map(|s| self.tk.outs[s.node].get(s.port).cloned().unwrap_or_default()).collect();
+        let o = self.eval(i, &node.op, ins);
+        for v in &o {
+            self.tk.max_len = self.tk.max_len.max(v.len());
+        }
+        self.tk.outs[i] = o;
+    }
+
+    /// Buffer the current inputs of the delay nodes declared directly in `scope`.
+    fn collect_defers(&mut self, scope: Option<usize>) {
+        for (i, node) in self.prog.nodes.iter().enumerate() {
+            if node.op.is_delay() && (!self.prog.has_loops() || self.prog.loop_of(i) == scope) {
+                let s = node.ins[0];
+                self.defer[i] = self.tk.outs[s.node].get(s.port).cloned().unwrap_or_default();
+            }
+        }
+    }
+
+    // ---- loop blocks ------------------------------------------------------------------------
+
+    fn run_scope(&mut self, scope: Option<usize>) {
+        let items = self.scope_order[scope.map_or(0, |l| l + 1)].clone();
+        for it in items {
+            match it {
+                Item::Node(i) => self.eval_node(i),
+                Item::Loop(l) => self.run_loop(l),
+            }
+        }
+        if scope.is_none() {
+            self.collect_defers(None);
+        }
+    }
+
+    /// Gate of loop `l`: a non-lazy entry input (`batch()`) holds data, or a non-lazy deferred
+    /// buffer of the loop holds data.
+    fn loop_gate(&self, l: usize) -> bool {
+        for (i, node) in self.prog.nodes.iter().enumerate() {
+            if self.prog.loop_of(i) != Some(l) {
+                continue;
+            }
+            match node.op {
+                Op::Batch if !self.batch_drained[i] => {
+                    let s = node.ins[0];
+                    if self.tk.outs[s.node].get(s.port).is_some_and(|v| !v.is_empty()) {
+                        return true;
+                    }
+                }
+                Op::DeferTick if !self.defer[i].is_empty() => return true,
+                _ => {}
+            }
+        }
+        false
+    }
+
+    fn run_loop(&mut self, l: usize) {
+        let prog = self.prog;
+        let is_root = prog.loops[l].is_none();
+        let members: Vec<usize> = (0..prog.nodes.len()).filter(|&i| Self::within(prog, prog.loop_of(i), l)).collect();
+        for &i in &members {
+            self.batch_drained[i] = false;
+            // nothing inside the block has run yet in this execution
+            let d = self.degs[i].max(1);
+            self.tk.outs[i] = vec![vec![]; d];
+        }
+        let mut iters = 0usize;
+        while self.loop_gate(l) {
+            if iters >= LOOP_ITER_CAP {
+                self.loop_cap_hit = true;
+                break;
+            }
+            self.run_scope(Some(l));
+            iters += 1;
+            // end of the iteration: loop-delayed data becomes visible to the next iteration,
+            // entry inputs have been consumed, all_iterations() keeps what left the loop
+            self.collect_defers(Some(l));
+            for (i, node) in prog.nodes.iter().enumerate() {
+                if prog.loop_of(i) == Some(l) && matches!(node.op, Op::Batch | Op::BatchLazy) {
+                    self.batch_drained[i] = true;
+                }
+                if matches!(node.op, Op::AllIterations) {
+                    let s = node.ins[0];
+                    if prog.loop_of(s.node) == Some(l) {
+                        let v = self.tk.outs[s.node].get(s.port).cloned().unwrap_or_default();
+                        self.allit_acc[i].extend(v);
+                    }
+                }
+            }
+            if is_root {
+                // a root-level loop is fused with the tick: at most one firing per tick
+                break;
+            }
+        }
+        if iters == 0 {
+            self.probes.insert(if is_root { "root_loop_not_fired" } else { "nested_loop_not_fired" });
+        } else if is_root {
+            self.probes.insert("root_loop_fired");
+        } else if iters > 1 {
+            self.probes.insert("nested_loop_iterated");
+        }
     }
 
     fn end_tick(&mut self, i: usize, op: &Op) {
@@ -191,22 +428,13 @@ impl<'p> Interp<'p> {
         }
     }
 
-    #[allow(clippy::too_many_arguments)]
-    fn eval(
-        &mut self,
-        i: usize,
-        op: &Op,
-        mut ins: Vec<Vec<It>>,
-        arrivals: &[Vec<It>],
-        out_deg: usize,
-        sinks: &mut [Vec<It>],
-        inspects: &mut [Vec<It>],
-    ) -> Vec<Vec<It>> {
+    fn eval(&mut self, i: usize, op: &Op, mut ins: Vec<Vec<It>>) -> Vec<Vec<It>> {
         let tick = self.tick;
+        let out_deg = self.degs[i];
         let mut in0 = || std::mem::take(&mut ins[0]);
         let one = |v: Vec<It>| vec![v];
         match op {
-            Op::Src { chan } => one(arrivals.get(*chan).cloned().unwrap_or_default()),
+            Op::Src { chan } => one(self.tk.arrivals.get(*chan).cloned().unwrap_or_default()),
             // source_iter: "all elements are emitted during the first tick"
             Op::SrcIter { items } => one(if tick == 0 { items.clone() } else { vec![] }),
             Op::NullSrc => one(vec![]),
@@ -216,10 +444,11 @@ impl<'p> Interp<'p> {
             Op::FlatMap { f } | Op::Flatten { f } => one(in0().into_iter().flat_map(|x| cl::flat_map_f(*f, x)).collect()),
             Op::Inspect { id } => {
                 let v = in0();
-                inspects[*id].extend(v.iter().copied());
+                self.tk.inspects[*id].extend(v.iter().copied());
                 one(v)
             }
             Op::Identity | Op::MapId => one(in0()),
+            Op::Decay => one(in0().into_iter().filter_map(cl::decay_f).collect()),
             // persist: "stores each item as it passes through, and replays all items every tick"
             Op::Persist => {
                 let v = in0();
@@ -504,8 +733,38 @@ impl<'p> Interp<'p> {
                 let (a, b): (Vec<It>, Vec<It>) = v.into_iter().map(|x| cl::unzip_f(*f, x)).unzip();
                 vec![a, b]
             }
+            // handoff pseudo-operators hold the tick's value; reference holders may update it in
+            // place before the pipe consumer (if any) sees it
+            Op::HoffSingleton | Op::HoffOptional | Op::HoffVec => one(in0()),
+            Op::RefMap { target, group, write, f } => {
+                let v = in0();
+                let rid = self.ref_ids[target];
+                let mut out = Vec::with_capacity(v.len());
+                for x in v {
+                    let cur = &mut self.tk.outs[*target][0];
+                    let seen = cur.clone();
+                    let y = if *write { cl::ref_write(*f, x, cur) } else { cl::ref_read(*f, x, cur) };
+                    self.tk.refs[rid].push((*group, x, seen));
+                    out.push(y);
+                }
+                if *write {
+                    self.probes.insert("ref_write");
+                }
+                one(out)
+            }
+            // batch()/batch_lazy(): release the entry input once per execution of the loop
+            Op::Batch | Op::BatchLazy => {
+                if self.batch_drained[i] {
+                    one(vec![])
+                } else {
+                    one(in0())
+                }
+            }
+            // all_iterations(): everything that left the loop over all its iterations
+            Op::AllIterations => one(std::mem::take(&mut self.allit_acc[i])),
             Op::Sink { id } => {
-                sinks[*id].extend(in0());
+                let v = in0();
+                self.tk.sinks[*id].extend(v);
                 vec![]
             }
             Op::Null => vec![],
